@@ -380,8 +380,14 @@ def build_unit(unit, log):
     return text, meta
 
 
-def build_group(name, outdir):
+def build_group(name, outdir, stub=()):
+    """`stub`: ids of fn units whose body cannot be brought before the verifier on this tree (lost anchor, unsupported construct):
+    they are emitted with their contract only, so that the REST of the group is still verified against the real bodies."""
     g = load_group(name)
+    if stub:
+        g = dict(g)
+        g['units'] = [dict(u, mode='contract_only', proved_in='(not verified on this tree)', stubbed=True)
+                      if (u['id'] in stub and u.get('kind', 'fn') == 'fn' and u.get('mode') is None) else u for u in g['units']]
     log = []
     parts = ['// GENERATED on every run by vlib/extract.py from %s -- do not edit' % REPO,
              '#![allow(unused_imports, unused_variables, unused_mut, dead_code, unused_parens, unused_braces, non_snake_case)]',
@@ -397,7 +403,14 @@ def build_group(name, outdir):
     metas = []
     cur_wrap = None
     for u in g['units']:
-        text, meta = build_unit(u, log)
+        try:
+            text, meta = build_unit(u, log)
+        except ExtractError as e:
+            e.unit_id = u['id']
+            e.stubbable = u.get('kind', 'fn') == 'fn' and u.get('mode') is None
+            raise
+        if u.get('stubbed'):
+            meta['stubbed'] = True
         wrap = u.get('wrap')
         if meta.get('hoist_out'):
             if cur_wrap is not None:
